@@ -159,7 +159,7 @@ func Spec() *core.Spec {
 			"every tree also through one long-lived encoder after a filler message and Clear(); the previous tree's returned bytes re-checked after later encodes; distinct = distinct (tree shape: tags, types, length mod 8, big-integer sign and bit-length mod 8)",
 		Assumptions: []string{"package wire is an independent reading of KMIP 1.4 §9.1 by the same author as the check", "booleans are exactly 0 or 1 on the wire"},
 		Shards:      func(tier string) int { return 8 },
-		Required:    []string{"trees", "reused_encoder_outputs", "overlong_bigint_inputs", "cases.ladder-strings", "cases.ladder-bigint"},
+		Required:    []string{"trees", "reused_encoder_outputs", "text_not_valid_utf8", "overlong_bigint_inputs", "cases.ladder-strings", "cases.ladder-bigint"},
 		Families: []core.Family{
 			{Name: "random", N: nOf(30000, 1500000), Run: func(c *core.Ctx, r *core.Rand, i int) {
 				t := gen.RandTree(r, 6, 6)
@@ -194,6 +194,16 @@ func Spec() *core.Spec {
 					}
 				default:
 					b = bytes.Repeat([]byte{0x7f}, l)
+					if ty == wire.TextString && l > 0 {
+						// a Go string may hold bytes that are not valid UTF-8 (a Latin-1 name, a truncated rune, a NUL at
+						// the end): the value handed to the encoder is those bytes
+						bad := [][]byte{[]byte("caf\xe9"), {0xC3}, {0xE2, 0x82}, []byte("x\x00"), {0xFF, 0xFE}, []byte("abc\xf0\x9f")}[l%6]
+						b = append(bytes.Repeat([]byte{'a'}, l), bad...)[len(bad):]
+						if len(b) > l {
+							b = b[len(b)-l:]
+						}
+						c.Count("text_not_valid_utf8", 1)
+					}
 				}
 				n := wire.Node{Tag: 0x420020 + l, Type: ty, Bytes: b}
 				CheckTree(c, n, 0)
